@@ -69,6 +69,12 @@ pub struct Problem<S> {
     pub starts: Vec<S>,
     pub goal: Rc<dyn HGoal<S>>,
     pub checker: Rc<dyn Fn(&S) -> bool>,
+    /// Object identity as a caller would have it: entries with the same `pd_key` hand the planner the
+    /// SAME `Arc<ProblemDefinition>` (start, goal and space of the first such entry), entries with the
+    /// same `vc_key` the SAME checker `Arc` (function of the first such entry). `None` = an object of
+    /// its own. An entry is thus one (problem definition, checker) combination that `setup` installs.
+    pub pd_key: Option<usize>,
+    pub vc_key: Option<usize>,
 }
 
 #[derive(Clone, Debug)]
@@ -307,11 +313,13 @@ where
         .iter()
         .map(|sp| Arc::new(ISpace { inner: sp.clone(), log: log.clone() }))
         .collect();
+    let mut pd_by_key: std::collections::HashMap<usize, Arc<PD<SP>>> = Default::default();
+    let mut vc_by_key: std::collections::HashMap<usize, Arc<IChecker<SP::StateType>>> = Default::default();
     let pds: Vec<(Arc<PD<SP>>, Arc<IChecker<SP::StateType>>)> = problems
         .iter()
         .enumerate()
         .map(|(pi, p)| {
-            (
+            let mk_pd = || {
                 Arc::new(ProblemDefinition {
                     space: ispaces[if ispaces.len() == 1 { 0 } else { pi }].clone(),
                     start_states: p.starts.clone(),
@@ -319,12 +327,23 @@ where
                         inner: p.goal.clone(),
                         log: log.clone(),
                     }),
-                }),
+                })
+            };
+            let mk_vc = || {
                 Arc::new(IChecker {
                     f: p.checker.clone(),
                     log: log.clone(),
-                }),
-            )
+                })
+            };
+            let pd = match p.pd_key {
+                Some(k) => pd_by_key.entry(k).or_insert_with(mk_pd).clone(),
+                None => mk_pd(),
+            };
+            let vc = match p.vc_key {
+                Some(k) => vc_by_key.entry(k).or_insert_with(mk_vc).clone(),
+                None => mk_vc(),
+            };
+            (pd, vc)
         })
         .collect();
 
